@@ -4,8 +4,11 @@ package main
 
 import (
 	"fmt"
+	"os"
+	"runtime/pprof"
 	"strconv"
 	"strings"
+	"time"
 
 	"github.com/pentops/j5/gen/j5/client/v1/client_j5pb"
 	"github.com/pentops/j5/gen/j5/schema/v1/schema_j5pb"
@@ -99,7 +102,24 @@ func resolveReal(names []string) ([]protoreflect.Descriptor, bool) {
 	return out, true
 }
 
-func (seqImpl) Exec(h *vh.H, op string) string {
+// Exec runs the op under a watchdog: a nested acquisition of the cache's mutex blocks the calling
+// goroutine for ever (the runtime's own deadlock detector does not fire while other goroutines
+// exist). The process then exits; with -flush the engine attributes the op without a result.
+func (s seqImpl) Exec(h *vh.H, op string) string {
+	done := make(chan string, 1)
+	go func() { done <- h.Guard(op, func() string { return s.exec(h, op) }) }()
+	select {
+	case res := <-done:
+		return res
+	case <-time.After(20 * time.Second):
+		fmt.Fprintf(os.Stderr, "DEADLOCK: op did not return within 20 s: %s\n", op)
+		_ = pprof.Lookup("goroutine").WriteTo(os.Stderr, 1)
+		os.Exit(3)
+		return "deadlock"
+	}
+}
+
+func (seqImpl) exec(h *vh.H, op string) string {
 	parts := strings.Split(op, " ")
 	var g Graph
 	var descs []protoreflect.Descriptor
